@@ -10,9 +10,11 @@ EXTENDS Retry, Json, IOUtils
 
 Tr == ndJsonDeserialize(IOEnv.TRACE)
 
-VARIABLES l, bad, why, hid, toks, tcpin
-tvars == <<rvars, l, bad, why, hid, toks, tcpin>>
-xvars == <<toks, tcpin>>
+VARIABLES l, bad, why, hid, toks, tcpin, openfail, newtry
+(* openfail: opening a connection (socket / connect / local address) just failed and the failure has not been
+   attributed yet; newtry: token -> tries already consumed by a request that has not transmitted anything yet *)
+tvars == <<rvars, l, bad, why, hid, toks, tcpin, openfail, newtry>>
+xvars == <<toks, tcpin, openfail, newtry>>
 
 Rej(label) == /\ bad' = TRUE /\ why' = [line |-> l, label |-> label]
               /\ UNCHANGED <<rvars, xvars>>
@@ -70,8 +72,9 @@ HCall(e) ==
        /\ UNCHANGED <<cfg, srv, fdi, q, owedF, owedO, oos, xvars>> /\ Acc
   ELSE IF e.api \in SimpleApis THEN
        /\ toks' = toks @@ (e.t :> e.api)
+       /\ newtry' = newtry @@ (e.t :> 0)
        /\ now' = e.now
-       /\ UNCHANGED <<cfg, srv, fdi, q, owedF, owedO, proc, oos, tcpin>> /\ Acc
+       /\ UNCHANGED <<cfg, srv, fdi, q, owedF, owedO, proc, oos, tcpin, openfail>> /\ Acc
   ELSE IF e.api \in {"cancel", "destroy"} THEN
        /\ q' = Without(q, Probes)          \* internal probe copies vanish silently
        /\ now' = e.now
@@ -83,8 +86,9 @@ HCall(e) ==
 (* ---- transmissions ------------------------------------------------------------ *)
 NewRec(f, fd, probe) ==
   [t |-> f.t, qt |-> f.qt, api |-> IF f.t \in DOMAIN toks THEN toks[f.t] ELSE "query", probe |-> probe,
-   st |-> "tosend", try |-> 0, ntx |-> 0, to |-> 0, fd |-> 0, srv |-> 0, sentAt |-> 0, dlo |-> 0, dhi |-> 0,
-   tcp |-> (cfg.usevc = 1), edns |-> (f.edns = 1), reqsrv |-> 0, noretry |-> probe, err |-> "", endst |-> "", endrc |-> -1,
+   st |-> "tosend", try |-> (IF ~probe /\ f.t \in DOMAIN newtry THEN newtry[f.t] ELSE 0), ntx |-> 0, to |-> 0, fd |-> 0, srv |-> 0, sentAt |-> 0, dlo |-> 0, dhi |-> 0,
+   tcp |-> (cfg.usevc = 1), edns |-> (f.edns = 1), reqsrv |-> 0, noretry |-> probe,
+   err |-> (IF ~probe /\ f.t \in DOMAIN newtry /\ newtry[f.t] > 0 THEN "ECONNREFUSED" ELSE ""), endst |-> "", endrc |-> -1,
    sentopts |-> FALSE, lname |-> f.lname, name |-> f.name]
 
 (* a probe copy accompanies a first attempt (just transmitted, or just queued on a TCP connection)
@@ -207,30 +211,36 @@ HRecv(e) ==
        IN IF Len(st.pk) = 0 THEN OutOfScope
           ELSE IF avail < st.pk[1].slen THEN
                /\ tcpin' = [tcpin EXCEPT ![e.fd].avail = avail]
-               /\ UNCHANGED <<rvars, toks>> /\ Acc
+               /\ UNCHANGED <<rvars, toks, openfail, newtry>> /\ Acc
           ELSE IF Len(st.pk) > 1 /\ avail >= st.pk[1].slen + st.pk[2].slen THEN OutOfScope
           ELSE /\ tcpin' = [tcpin EXCEPT ![e.fd] = [avail |-> avail - st.pk[1].slen, pk |-> Tail(st.pk)]]
-               /\ HPacket(e.fd, st.pk[1]) /\ CountPacket /\ UNCHANGED toks /\ Acc
+               /\ HPacket(e.fd, st.pk[1]) /\ CountPacket /\ UNCHANGED <<toks, openfail, newtry>> /\ Acc
 
 HEnv(e) ==
   IF e.op = "stream" THEN
        /\ tcpin' = [tcpin EXCEPT ![e.fd].pk = Append(@, e)]
-       /\ UNCHANGED <<rvars, toks>> /\ Acc
+       /\ UNCHANGED <<rvars, toks, openfail, newtry>> /\ Acc
   ELSE IF e.op = "peerclose" THEN OutOfScope
   ELSE Skip
+
+(* opening a connection failed: the server chosen for this attempt is demoted (notification follows) and the
+   query being sent is requeued with one more try; which query it was is inferred at the notification *)
+OpenFailed == IF openfail THEN OutOfScope
+              ELSE openfail' = TRUE /\ UNCHANGED <<rvars, toks, tcpin, newtry, bad, why>>
 
 HSk(e) ==
   CASE e.op = "open" ->
          IF e.res = "ok" THEN
               /\ fdi' = fdi @@ (e.fd :> [srv |-> 0, tcp |-> (e.tcp = 1)])
               /\ tcpin' = tcpin @@ (e.fd :> [avail |-> 0, pk |-> <<>>])
-              /\ UNCHANGED <<cfg, now, srv, q, owedF, owedO, proc, oos, toks>> /\ Acc
-         ELSE OutOfScope
+              /\ UNCHANGED <<cfg, now, srv, q, owedF, owedO, proc, oos, toks, openfail, newtry>> /\ Acc
+         ELSE OpenFailed
     [] e.op = "connect" ->
-         IF e.res = "err" THEN OutOfScope
+         IF e.res = "err" THEN OpenFailed
          ELSE /\ fdi' = [fdi EXCEPT ![e.fd].srv = e.srv]
               /\ UNCHANGED <<cfg, now, srv, q, owedF, owedO, proc, oos, xvars>> /\ Acc
-    [] e.op \in {"getsockname", "opt", "bind"} -> IF e.res = "err" /\ ~(e.op = "opt" /\ e.opt = "tfo") THEN OutOfScope ELSE Skip
+    [] e.op = "getsockname" -> IF e.res = "err" THEN OpenFailed ELSE Skip
+    [] e.op \in {"opt", "bind"} -> IF e.res = "err" /\ ~(e.op = "opt" /\ e.opt = "tfo") THEN OutOfScope ELSE Skip
     [] e.op = "send" -> HSend(e)
     [] e.op = "recv" -> HRecv(e)
     [] OTHER -> Skip
@@ -249,6 +259,26 @@ HSrv(e) ==
        ELSE Rej("c09.success_notification_without_accepted_answer")
   ELSE IF owedF[e.s] > 0 THEN /\ owedF' = [owedF EXCEPT ![e.s] = @ - 1]
                               /\ UNCHANGED <<cfg, now, srv, fdi, q, owedO, proc, oos, xvars>> /\ Acc
+  ELSE IF openfail THEN
+       \* the attempt that could not open a connection to e.s: either a query waiting to be (re)sent, or a request
+       \* that has not transmitted anything yet
+       LET waiting == {id \in DOMAIN q : q[id].st = "tosend" /\ ~q[id].tcp}
+           fresh == {t \in DOMAIN newtry : Live(t, 1) = {} /\ \A id \in DOMAIN q : q[id].t # t}
+       IN IF waiting # {} THEN
+               \E id \in waiting :
+                  /\ (IF q[id].reqsrv # 0 THEN q[id].reqsrv = e.s ELSE FreshChoiceOk(e.s))
+                  /\ srv' = FailServer(e.s)
+                  /\ q' = DropDoneProbes([q EXCEPT ![id] = Requeued(q[id], TRUE, "ECONNREFUSED")])
+                  /\ openfail' = FALSE
+                  /\ UNCHANGED <<cfg, now, fdi, owedF, owedO, proc, oos, toks, tcpin, newtry>> /\ Acc
+          ELSE IF fresh # {} THEN
+               \E t \in fresh :
+                  /\ FreshChoiceOk(e.s)
+                  /\ srv' = FailServer(e.s)
+                  /\ newtry' = [newtry EXCEPT ![t] = @ + 1]
+                  /\ openfail' = FALSE
+                  /\ UNCHANGED <<cfg, now, fdi, q, owedF, owedO, proc, oos, toks, tcpin>> /\ Acc
+          ELSE OutOfScope
   ELSE IF proc.in /\ proc.nonfd /\ TimedOutCandidates(e.s) # {} THEN
        \* a query on this server reached its deadline: the server is demoted and the query requeued
        \E id \in TimedOutCandidates(e.s) :
@@ -308,7 +338,7 @@ Handle(e) ==
 
 Verdict == [verdict |-> IF bad THEN "REJ" ELSE "ACC", id |-> hid, line |-> why.line, label |-> why.label, oos |-> oos]
 
-TInit == /\ RInit /\ toks = <<>> /\ tcpin = <<>>
+TInit == /\ RInit /\ toks = <<>> /\ tcpin = <<>> /\ openfail = FALSE /\ newtry = <<>>
          /\ l = 1 /\ bad = FALSE /\ why = [line |-> 0, label |-> ""] /\ hid = ""
 
 TNext ==
@@ -319,7 +349,7 @@ TNext ==
             /\ (hid # "" => PrintT(ToJson(Verdict)))
             /\ cfg' = [nsrv |-> 0] /\ now' = 0 /\ srv' = <<>> /\ fdi' = <<>> /\ q' = <<>> /\ owedF' = <<>> /\ owedO' = <<>>
             /\ proc' = [in |-> FALSE, nonfd |-> FALSE, nrecv |-> 0] /\ oos' = FALSE
-            /\ toks' = <<>> /\ tcpin' = <<>>
+            /\ toks' = <<>> /\ tcpin' = <<>> /\ openfail' = FALSE /\ newtry' = <<>>
             /\ bad' = FALSE /\ why' = [line |-> 0, label |-> ""]
             /\ hid' = e.id
        ELSE /\ hid' = hid
